@@ -129,6 +129,7 @@ def lockTable : List C13Gen.LockUse := [
   ⟨"core/state_indexed.go", "IndexedState.Load", "s.slock(false)", true⟩,
   ⟨"core/state_indexed.go", "IndexedState.Rem", "s.slock(false)", true⟩,
   ⟨"core/state_indexed.go", "IndexedState.Search", "s.slock(true)", true⟩,
+  ⟨"core/state_indexed.go", "IndexedState.cacheGeneration", "s.cacheMutex.Lock()", false⟩,
   ⟨"core/state_indexed.go", "IndexedState.cacheRule", "s.cacheMutex.Lock()", false⟩,
   ⟨"core/state_indexed.go", "IndexedState.cachedRule", "s.cacheMutex.Lock()", false⟩,
   ⟨"core/state_indexed.go", "IndexedState.doFindRules", "s.slock(true)", true⟩,
@@ -143,6 +144,7 @@ def lockTable : List C13Gen.LockUse := [
   ⟨"core/state_linear.go", "LinearState.Delete", "s.slock(false)", false⟩,
   ⟨"core/state_linear.go", "LinearState.IsLoaded", "s.slock(false)", false⟩,
   ⟨"core/state_linear.go", "LinearState.Load", "s.slock(false)", true⟩,
+  ⟨"core/state_linear.go", "LinearState.cacheGeneration", "s.cacheMutex.Lock()", false⟩,
   ⟨"core/state_linear.go", "LinearState.cacheRule", "s.cacheMutex.Lock()", false⟩,
   ⟨"core/state_linear.go", "LinearState.cachedRule", "s.cacheMutex.Lock()", false⟩,
   ⟨"core/state_linear.go", "LinearState.doFindRules", "s.slock(true)", true⟩,
